@@ -243,7 +243,9 @@ func prepare(r *ev.Run, v *val) {
 	}
 	// the owning runtime must read b back as the original value
 	fr := v.fresh()
+	rtRejects := false
 	if err := safeRT(func() error { return rtUnmarshal(v.rt, b, fr) }); err != nil {
+		rtRejects = true
 		if v.rt == rtV2 && v.flavour == "fastmarshal-googlev1" {
 			// proto2 message with a missing required field: protobuf-go reports it but still fills the message
 		} else {
@@ -274,6 +276,11 @@ func prepare(r *ev.Run, v *val) {
 		return
 	}
 	if uerr != nil {
+		if !rtRejects {
+			// the owning runtime reads these bytes back as the original value: "decoding the field back yields an equal
+			// message" cannot hold if the decode the bridge delegates to refuses them
+			r.Fail("DecodeNested/"+v.flavour+"/valid-nested-message-rejected", v.id(), detail{Flavour: v.flavour, Value: v.name, Msg: "csproto.Unmarshal (what DecodeNested delegates to) rejects the bytes csproto.Marshal produced, the owning runtime decodes them to the original value: " + uerr.Error()})
+		}
 		v.decErr = true
 		return
 	}
